@@ -233,6 +233,16 @@ def extract_consts(repo):
         raise TranslatorError(f"HyperLogLog.__init__: p range check not recognised: {ps}")
     C["hll_p_max"] = dict(ps)["Gt"]
     C["hll_p_min"] = dict(ps)["Lt"]
+    offs = []
+    for nm in ("threshold", "bias_data", "raw_estimate"):
+        v = _assign_value(init, nm)
+        c = _consts([v], (int,))
+        if len(c) != 1:
+            raise TranslatorError(f"HyperLogLog.__init__: table index of {nm} not recognised: {c}")
+        offs.append(c[0])
+    if len(set(offs)) != 1:
+        raise TranslatorError(f"HyperLogLog.__init__: table rows use different offsets {offs}")
+    C["hll_table_offset"] = offs[0]
     C["hll_default_p"] = _default(init, "p")
     C["hll_default_seed"] = _default(init, "seed")
     q = _find_func(hl, "_query")
